@@ -351,6 +351,36 @@ pub fn run_all(rounds: u64) -> Vec<String> {
       h.join().unwrap();
       l2.store(n.load(Ordering::SeqCst), Ordering::SeqCst);
     });
+    // 17. park / unpark and thread identities: a parked worker is woken by unpark (also
+    //     when the unpark comes first), ids differ between live threads, park_timeout ends
+    //     on the virtual clock
+    let o = run(cfg(walk), move || {
+      use crate::stdx::sync::atomic::{AtomicUsize, Ordering};
+      let hits = Arc::new(AtomicUsize::new(0));
+      let h2 = hits.clone();
+      let me = thread::current();
+      let my_id = me.id();
+      let h = thread::spawn(move || {
+        assert!(thread::current().id() != my_id);
+        while h2.load(Ordering::SeqCst) == 0 {
+          thread::park();
+        }
+        me.unpark();
+        thread::current().id()
+      });
+      let wid = h.thread().id();
+      hits.store(1, Ordering::SeqCst);
+      h.thread().unpark();
+      thread::park();
+      assert_eq!(h.join().unwrap(), wid);
+      let t0 = crate::stdx::time::Instant::now();
+      thread::park_timeout(Duration::from_secs(5));
+      assert!(t0.elapsed() >= Duration::from_secs(5));
+    });
+    if o.kind != Kind::Done {
+      fails.push(format!("park: {}", o.describe()));
+    }
+
     let n = lost.load(std::sync::atomic::Ordering::SeqCst);
     if !(o.kind == Kind::Done && (n == 1 || n == 2)) {
       fails.push(format!("atomic-spin: {} n={}", o.describe(), n));
